@@ -14,7 +14,6 @@ open WinTree WinRB WinSpec
 structure TInv (content : Id → Int → Int → Cell) (screen : Int → Int → Cell) (t : Tree) : Prop where
   ok : TreeOk t
   ord : Ordered t
-  root : RootOk t
   pos : RootsPositive t
   nonempty : ∀ x ∈ t.root.damage, x.Nonempty
   dinv : RectSet.Inv t.root.damage
@@ -53,6 +52,34 @@ theorem RootStep.flagged {a b : Tree} (h : RootStep a b) (hf : a.root.damage ≠
   rcases h with h | ⟨x, _, _⟩
   · intro hd; rw [h] at *; exact hf hd
   · intro _; exact x
+
+
+/-- The root window is shown (with `TreeOk.rootWin` this is `RootOk`). -/
+def RootVisible (t : Tree) : Prop := ∀ w, t.wins[0]? = some w → w.isVisible = true
+
+theorem rootOk_of_visible {t : Tree} (hok : TreeOk t) (hv : RootVisible t) : RootOk t := by
+  obtain ⟨w, hw, hf, _, _, htop, hleft⟩ := hok.rootWin.ex
+  exact ⟨⟨w, hw, hf, hv w hw, htop, hleft⟩⟩
+
+/-- Under a hidden root window no cell is owned. -/
+theorem ownerAt_none_of_hidden (t : Tree) (w : Win) (hw : t.wins[0]? = some w) (hv : w.isVisible = false) (L C : Int) :
+    ownerAt t L C = none := by
+  unfold ownerAt
+  rw [ownerLoc_unfold, hw]
+  simp [hv]
+
+theorem invC_of_hidden (content : Id → Int → Int → Cell) (screen : Int → Int → Cell) (t : Tree) (w : Win)
+    (hw : t.wins[0]? = some w) (hv : w.isVisible = false) : InvC content t screen := by
+  intro L C w' l c ho
+  rw [ownerAt_none_of_hidden t w hw hv] at ho
+  cases ho
+
+theorem root_vis_cases (t : Tree) (hok : TreeOk t) :
+    RootVisible t ∨ ∃ w, t.wins[0]? = some w ∧ w.isVisible = false := by
+  obtain ⟨w, hw, _⟩ := hok.rootWin.ex
+  cases hv : w.isVisible with
+  | true => exact Or.inl (fun w' hw' => by rw [hw] at hw'; cases hw'; exact hv)
+  | false => exact Or.inr ⟨w, hw, hv⟩
 
 /-! ### the list surgery -/
 
@@ -190,7 +217,7 @@ theorem rectsKept_relist (t t' : Tree) (p : Id) (pw : Win) (cs : List Id) (hpw :
 /-- After `tb` (whose store is `t`'s) the optional expose of `e` in `p` keeps everything but the damage, which grows. -/
 theorem expose_after (content : Id → Int → Int → Cell) (screen : Int → Int → Cell) (t tb t' : Tree) (fe : Nat) (p : Id)
     (vis : Bool) (e : Rect)
-    (hokb : TreeOk tb) (hordb : Ordered tb) (hrob : RootOk tb) (hposb : RootsPositive tb) (hroot : tb.root = t.root)
+    (hokb : TreeOk tb) (hordb : Ordered tb) (hposb : RootsPositive tb) (hroot : tb.root = t.root)
     (hne : ∀ x ∈ t.root.damage, x.Nonempty) (hdinv : RectSet.Inv t.root.damage)
     (hinv : InvC content t screen)
     (hlocal : ∀ L C, ownerAt tb L C ≠ ownerAt t L C → vis = true ∧ ExposedRegion tb fe p (some e) L C)
@@ -202,7 +229,7 @@ theorem expose_after (content : Id → Int → Int → Cell) (screen : Int → I
       TInv content screen tc := by
     intro tc hcw hcne hcinv hcgrow hccov
     have hcore : ∀ x : Id, (tc.wins[x]?).map core = (tb.wins[x]?).map core := by intro x; rw [hcw]
-    refine ⟨treeOk_congr_core hcore hokb, ordered_congr hcw hordb, rootOk_congr_core (hcore 0) hrob,
+    refine ⟨treeOk_congr_core hcore hokb, ordered_congr hcw hordb,
       rootsPositive_congr_core hcore hposb, hcne, hcinv, ?_⟩
     intro L C w l c ho
     rw [ownerAt_congr tc tb hcw] at ho
@@ -329,12 +356,6 @@ theorem relist_step (content : Id → Int → Int → Cell) (screen : Int → In
     · exact hI.ord x w hw ch hmem
     · subst hcc hxp
       exact (hcin hcm).2.2
-  have hrob : RootOk tb := by
-    obtain ⟨w, hw, hf, hv, htop, hleft⟩ := hI.root.ex
-    obtain ⟨wb, hwb⟩ := hrel' 0 w hw
-    obtain ⟨w2, hw2, _, _, hf2, hrect2, hv2, _⟩ := hrel 0 wb hwb
-    rw [hw] at hw2; cases hw2
-    exact ⟨⟨wb, hwb, by rw [hf2]; exact hf, by rw [hv2]; exact hv, by rw [hrect2]; exact htop, by rw [hrect2]; exact hleft⟩⟩
   have hposb : RootsPositive tb := by
     intro x wb hwb hr
     obtain ⟨w, hw, hr1, _, _, hrect, _⟩ := hrel x wb hwb
@@ -354,7 +375,7 @@ theorem relist_step (content : Id → Int → Int → Cell) (screen : Int → In
       · rw [hb_c] at hcw; cases hcw; exact ⟨hv, hm⟩
     exact ⟨hvis.1, x, y, fun r hr' => by cases hr'; exact (memb_true_iff _ _ _).1 hvis.2,
       exposedAt_mono_le tb (by omega) hex⟩
-  obtain ⟨r1, r2, r3⟩ := expose_after content screen t tb t' fe p w0.isVisible w0.rect hokb hordb hrob hposb hb_root
+  obtain ⟨r1, r2, r3⟩ := expose_after content screen t tb t' fe p w0.isVisible w0.rect hokb hordb hposb hb_root
     hI.nonempty hI.dinv hI.inv hlocal h
   refine ⟨r1, r2, r3, fun hpl hcq => parentListed_congr r3 ?_⟩
   intro x wb q hwb hq
@@ -372,6 +393,168 @@ theorem relist_step (content : Id → Int → Int → Cell) (screen : Int → In
       rw [hpw] at hqw; cases hqw
       exact ⟨pw', hb_p, by rw [hpw'_f.2.2.2.2.2]; exact mem_of_filter_eq' hfilter hmem hxc⟩
     · exact ⟨qw, by rw [hb_other q hqp]; exact hqw, hmem⟩
+
+/-- The same step for any tree `tb` that differs from `t` in the child list of `p` (re-listing `c`) and possibly in the
+    parent pointer of `c` (cleared: `_do_hierarchy_change(REMOVE)` of `tickit_window_close`); nothing is assumed of the
+    root window's visibility. -/
+theorem relist_gen (content : Id → Int → Int → Cell) (screen : Int → Int → Cell) (t tb t' : Tree) (p c : Id)
+    (pw pw' w0 w0' : Win) (cs : List Id) (fe : Nat) (hI : TInv content screen t) (hfe : t.wins.size ≤ fe)
+    (hpw : t.wins[p]? = some pw) (hw0 : t.wins[c]? = some w0) (hpc : p ≠ c) (hc0 : c ≠ 0)
+    (honly : ∀ (x : Id) (w : Win), x ≠ p → x ≠ c → t.wins[x]? = some w → c ∉ w.children)
+    (hfilter : cs.filter (fun x => decide (x ≠ c)) = pw.children.filter (fun x => decide (x ≠ c)))
+    (hnodup : cs.Nodup)
+    (hb_p : tb.wins[p]? = some pw')
+    (hpw'_f : pw'.isVisible = pw.isVisible ∧ pw'.freed = pw.freed ∧ pw'.rect = pw.rect ∧ pw'.parent = pw.parent ∧
+      pw'.isRoot = pw.isRoot ∧ pw'.children = cs)
+    (hb_c : tb.wins[c]? = some w0')
+    (hw0'_f : w0'.isVisible = w0.isVisible ∧ w0'.freed = w0.freed ∧ w0'.rect = w0.rect ∧ w0'.isRoot = w0.isRoot ∧
+      w0'.children = w0.children ∧ (w0'.parent = w0.parent ∨ w0'.parent = none))
+    (hb_other : ∀ x : Id, x ≠ p → x ≠ c → tb.wins[x]? = t.wins[x]?)
+    (hb_size : tb.wins.size = t.wins.size) (hb_root : tb.root = t.root)
+    (hcin : c ∈ cs → w0'.parent = some p ∧ w0'.isRoot = false ∧ @LT.lt Nat _ p c)
+    (h : (if w0.isVisible then expose tb fe p (some w0.rect) else pure tb) = .ok t') :
+    TInv content screen t' ∧ RootStep t t' ∧ t'.wins = tb.wins ∧
+      (ParentListedBut t c → (∀ q, w0'.parent = some q → q = p ∧ c ∈ cs) → ParentListed t') := by
+  have hok := hI.ok
+  have hsbl : SameButL t tb p c :=
+    { other := fun x hxp hxc => by rw [hb_other x hxp hxc]
+      parNone := fun hn => by rw [hpw] at hn; cases hn
+      par := fun pw2 hpw2 => by
+        rw [hpw] at hpw2; cases hpw2
+        exact ⟨pw', hb_p, hpw'_f.1, hpw'_f.2.1, hpw'_f.2.2.1, by rw [hpw'_f.2.2.2.2.2]; exact hfilter⟩
+      size := hb_size
+      only := honly }
+  -- every window of `tb` against the window of `t`
+  have hrel : ∀ (x : Id) (wb : Win), tb.wins[x]? = some wb → ∃ w, t.wins[x]? = some w ∧ wb.isRoot = w.isRoot ∧
+      (wb.parent = w.parent ∨ (x = c ∧ wb.parent = none)) ∧ wb.freed = w.freed ∧ wb.rect = w.rect ∧
+      wb.isVisible = w.isVisible ∧ (x ≠ p → wb.children = w.children) ∧ (x = p → wb.children = cs ∧ w = pw) := by
+    intro x wb hwb
+    by_cases hxp : x = p
+    · subst hxp
+      rw [hb_p] at hwb; cases hwb
+      exact ⟨pw, hpw, hpw'_f.2.2.2.2.1, Or.inl hpw'_f.2.2.2.1, hpw'_f.2.1, hpw'_f.2.2.1, hpw'_f.1, fun hx => absurd rfl hx,
+        fun _ => ⟨hpw'_f.2.2.2.2.2, rfl⟩⟩
+    · by_cases hxc : x = c
+      · subst hxc
+        rw [hb_c] at hwb; cases hwb
+        refine ⟨w0, hw0, hw0'_f.2.2.2.1, ?_, hw0'_f.2.1, hw0'_f.2.2.1, hw0'_f.1, fun _ => hw0'_f.2.2.2.2.1, fun hx => absurd hx hxp⟩
+        rcases hw0'_f.2.2.2.2.2 with h1 | h1
+        · exact Or.inl h1
+        · exact Or.inr ⟨rfl, h1⟩
+      · rw [hb_other x hxp hxc] at hwb
+        exact ⟨wb, hwb, rfl, Or.inl rfl, rfl, rfl, rfl, fun _ => rfl, fun hx => absurd hx hxp⟩
+  have hrel' : ∀ (x : Id) (w : Win), t.wins[x]? = some w → ∃ wb, tb.wins[x]? = some wb := by
+    intro x w hw
+    by_cases hxp : x = p
+    · exact ⟨_, by rw [hxp]; exact hb_p⟩
+    · by_cases hxc : x = c
+      · exact ⟨_, by rw [hxc]; exact hb_c⟩
+      · exact ⟨w, by rw [hb_other x hxp hxc]; exact hw⟩
+  -- a child of `tb` is a child in `t` other than `c`, or it is `c` listed by `p`
+  have hchild : ∀ (x : Id) (wb : Win), tb.wins[x]? = some wb → ∀ ch ∈ wb.children,
+      (∃ w, t.wins[x]? = some w ∧ ch ∈ w.children ∧ ch ≠ c) ∨ (x = p ∧ ch = c ∧ c ∈ cs) := by
+    intro x wb hwb ch hch
+    obtain ⟨w, hw, _, _, _, _, _, hc1, hc2⟩ := hrel x wb hwb
+    by_cases hxp : x = p
+    · obtain ⟨hcs, hwp⟩ := hc2 hxp
+      rw [hcs] at hch
+      by_cases hcc : ch = c
+      · exact Or.inr ⟨hxp, hcc, by rw [← hcc]; exact hch⟩
+      · subst hwp
+        exact Or.inl ⟨w, hw, mem_of_filter_eq hfilter hch hcc, hcc⟩
+    · rw [hc1 hxp] at hch
+      refine Or.inl ⟨w, hw, hch, fun hcc => ?_⟩
+      subst hcc
+      by_cases hxc : x = ch
+      · subst hxc
+        obtain ⟨cw, hcw, hcp, _⟩ := hok.wf.child x w hw x hch
+        exact hok.noSelf x cw hcw hcp
+      · exact honly x w hxp hxc hw hch
+  have hokb : TreeOk tb := by
+    refine ⟨⟨?_⟩, ?_, ?_, ?_, ?_⟩
+    · intro cur wb hwb ch hch
+      rcases hchild cur wb hwb ch hch with ⟨w, hw, hmem, hne⟩ | ⟨hxp, hcc, hcm⟩
+      · obtain ⟨cw, hcw, hcpar, hcr⟩ := hok.wf.child cur w hw ch hmem
+        obtain ⟨cwb, hcwb⟩ := hrel' ch cw hcw
+        obtain ⟨cw2, hcw2, hr2, hp2, _⟩ := hrel ch cwb hcwb
+        rw [hcw] at hcw2; cases hcw2
+        rcases hp2 with hp2 | ⟨hx, _⟩
+        · exact ⟨cwb, hcwb, by rw [hp2]; exact hcpar, by rw [hr2]; exact hcr⟩
+        · exact absurd hx hne
+      · subst hcc hxp
+        obtain ⟨h1, h2, _⟩ := hcin hcm
+        exact ⟨w0', hb_c, h1, h2⟩
+    · intro cur wb hwb
+      obtain ⟨w, hw, _, _, _, _, _, hc1, hc2⟩ := hrel cur wb hwb
+      by_cases hcp : cur = p
+      · rw [(hc2 hcp).1]; exact hnodup
+      · rw [hc1 hcp]; exact hok.nodup cur w hw
+    · intro x wb hwb
+      obtain ⟨w, hw, _, hp1, _⟩ := hrel x wb hwb
+      rcases hp1 with hp1 | ⟨_, hp1⟩
+      · rw [hp1]; exact hok.noSelf x w hw
+      · rw [hp1]; exact fun hx => by cases hx
+    · intro x wb hwb hr
+      obtain ⟨w, hw, hr1, _⟩ := hrel x wb hwb
+      exact hok.onlyRoot x w hw (by rw [← hr1]; exact hr)
+    · obtain ⟨w, hw, hf, hroot, hpar, htop, hleft⟩ := hok.rootWin.ex
+      obtain ⟨wb, hwb⟩ := hrel' 0 w hw
+      obtain ⟨w2, hw2, hr2, hp2, hf2, hrect2, _⟩ := hrel 0 wb hwb
+      rw [hw] at hw2; cases hw2
+      refine ⟨⟨wb, hwb, by rw [hf2]; exact hf, by rw [hr2]; exact hroot, ?_, by rw [hrect2]; exact htop, by rw [hrect2]; exact hleft⟩⟩
+      rcases hp2 with hp2 | ⟨_, hp2⟩
+      · rw [hp2]; exact hpar
+      · exact hp2
+  have hordb : Ordered tb := by
+    intro x wb hwb ch hch
+    rcases hchild x wb hwb ch hch with ⟨w, hw, hmem, _⟩ | ⟨hxp, hcc, hcm⟩
+    · exact hI.ord x w hw ch hmem
+    · subst hcc hxp
+      exact (hcin hcm).2.2
+  have hposb : RootsPositive tb := by
+    intro x wb hwb hr
+    obtain ⟨w, hw, hr1, _, _, hrect, _⟩ := hrel x wb hwb
+    rw [hrect]; exact hI.pos x w hw (by rw [← hr1]; exact hr)
+  -- owner changes only under `c`'s rectangle, which the expose covers
+  have hlocal : ∀ L C, ownerAt tb L C ≠ ownerAt t L C → w0.isVisible = true ∧
+      ExposedRegion tb fe p (some w0.rect) L C := by
+    intro L C hne'
+    rw [← ownerAt_fuel tb hordb fe (by rw [hb_size]; exact hfe), ← ownerAt_fuel t hI.ord fe hfe] at hne'
+    have hu := ownerLoc_localL hsbl hpc fe 0 L C (Ne.symm hc0) hne'
+    obtain ⟨rw1, hrw1, hrf1, hrr1, hrp1, hrt1, hrl1⟩ := hokb.rootWin.ex
+    obtain ⟨x, y, k', hP, hk, hex⟩ := under_ctxL tb hokb.wf p _ fe 0 L C 0 L C rw1 hrw1
+      (by rw [hrr1, hrp1]; rfl) (fun _ => ⟨hrt1, hrl1⟩) (by rw [hrp1]; exact ⟨rfl, rfl⟩) hu
+    have hvis : w0.isVisible = true ∧ w0.rect.memb x y = true := by
+      rcases hP with ⟨cw, hcw, hv, _, hm⟩ | ⟨cw, hcw, hv, _, hm⟩
+      · rw [hw0] at hcw; cases hcw; exact ⟨hv, hm⟩
+      · rw [hb_c] at hcw; cases hcw
+        exact ⟨by rw [← hw0'_f.1]; exact hv, by rw [← hw0'_f.2.2.1]; exact hm⟩
+    exact ⟨hvis.1, x, y, fun r hr' => by cases hr'; exact (memb_true_iff _ _ _).1 hvis.2,
+      exposedAt_mono_le tb (by omega) hex⟩
+  obtain ⟨r1, r2, r3⟩ := expose_after content screen t tb t' fe p w0.isVisible w0.rect hokb hordb hposb hb_root
+    hI.nonempty hI.dinv hI.inv hlocal h
+  refine ⟨r1, r2, r3, fun hpl hcq => parentListed_congr r3 ?_⟩
+  intro x wb q hwb hq
+  by_cases hxc : x = c
+  · subst hxc
+    rw [hb_c] at hwb; cases hwb
+    obtain ⟨hqp, hcm⟩ := hcq q hq
+    subst hqp
+    exact ⟨pw', hb_p, by rw [hpw'_f.2.2.2.2.2]; exact hcm⟩
+  · obtain ⟨w, hw, _, hp2, _⟩ := hrel x wb hwb
+    rcases hp2 with hp2 | ⟨hx, _⟩
+    · rw [hp2] at hq
+      obtain ⟨qw, hqw, hmem⟩ := hpl x w q hxc hw hq
+      by_cases hqp : q = p
+      · subst hqp
+        rw [hpw] at hqw; cases hqw
+        exact ⟨pw', hb_p, by rw [hpw'_f.2.2.2.2.2]; exact mem_of_filter_eq' hfilter hmem hxc⟩
+      · by_cases hqc : q = c
+        · subst hqc
+          rw [hw0] at hqw; cases hqw
+          exact ⟨w0', hb_c, by rw [hw0'_f.2.2.2.2.1]; exact hmem⟩
+        · exact ⟨qw, by rw [hb_other q hqp hqc]; exact hqw, hmem⟩
+    · exact absurd hx hxc
 
 /-! ### the restacking kinds (applied from the queue at the head of `tickit_window_flush`) -/
 
@@ -399,9 +582,9 @@ theorem listLower_not_mem : ∀ (cs : List Id) (c : Id), c ∉ cs → listLower 
 /-- A store that reads the same window for window is as good. -/
 theorem tinv_pointwise (content : Id → Int → Int → Cell) (screen : Int → Int → Cell) (t tb : Tree)
     (hw : ∀ x : Id, tb.wins[x]? = t.wins[x]?) (hs : tb.wins.size = t.wins.size) (hI : TInv content screen t) :
-    TreeOk tb ∧ Ordered tb ∧ RootOk tb ∧ RootsPositive tb ∧ ∀ L C, ownerAt tb L C = ownerAt t L C := by
+    TreeOk tb ∧ Ordered tb ∧ RootsPositive tb ∧ ∀ L C, ownerAt tb L C = ownerAt t L C := by
   have hcore : ∀ x : Id, (tb.wins[x]?).map core = (t.wins[x]?).map core := by intro x; rw [hw x]
-  refine ⟨treeOk_congr_core hcore hI.ok, ?_, rootOk_congr_core (hcore 0) hI.root, rootsPositive_congr_core hcore hI.pos,
+  refine ⟨treeOk_congr_core hcore hI.ok, ?_, rootsPositive_congr_core hcore hI.pos,
     fun L C => ownerAt_congr_view (fun x => by rw [hw x]) hs L C⟩
   intro x w hwx; rw [hw x] at hwx; exact hI.ord x w hwx
 
@@ -495,8 +678,8 @@ theorem restack_step (content : Id → Int → Int → Cell) (screen : Int → I
               rw [← htb, set_wins_self t x pw _ hpw.1, hpw.1]
             · rw [← htb, set_wins_other t p x _ hx]
           have hsz : tb.wins.size = t.wins.size := by rw [← htb, set_size]
-          obtain ⟨a1, a2, a3, a4, a5⟩ := tinv_pointwise content screen t tb hwb hsz hI
-          obtain ⟨b1, b2, b3⟩ := expose_after content screen t tb t' (t.wins.size + 1) p w0.isVisible w0.rect a1 a2 a3 a4
+          obtain ⟨a1, a2, a4, a5⟩ := tinv_pointwise content screen t tb hwb hsz hI
+          obtain ⟨b1, b2, b3⟩ := expose_after content screen t tb t' (t.wins.size + 1) p w0.isVisible w0.rect a1 a2 a4
             (by rw [← htb]; rfl) hI.nonempty hI.dinv hI.inv (fun L C hne => absurd (a5 L C) hne) h
           exact ⟨b1, b2, by rw [b3, hsz], fun hpl => parentListed_congr b3 (by
             intro x w q hw hq
